@@ -29,6 +29,8 @@ type cctx struct {
 	clause   *Clause
 	bound    map[string]*Term
 	pos      token.Pos
+	head     *State // state at the head of the innermost invariant loop
+	now      bool   // parameters denote their current (possibly reassigned) values
 }
 
 func (c *cctx) with(cl *Clause) *cctx {
@@ -38,7 +40,7 @@ func (c *cctx) with(cl *Clause) *cctx {
 }
 
 func (x *Exec) cctx(st *State, cl *Clause) *cctx {
-	return &cctx{x: x, st: st, old: x.entry, clause: cl, pos: x.curPos}
+	return &cctx{x: x, st: st, old: x.entry, clause: cl, pos: x.curPos, head: x.loopHead}
 }
 
 type cval struct {
@@ -166,7 +168,7 @@ func (c *cctx) evalIdent(id *ast.Ident) cval {
 		if g, ok := c.st.ghosts[name]; ok {
 			return cval{g, x.ghostTypes[name]}
 		}
-		if !c.pos.IsValid() {
+		if !c.pos.IsValid() && !c.now {
 			// entry/exit context: parameters and results win over shadowing locals
 			for i, rn := range x.resNames {
 				if rn == name {
@@ -661,6 +663,18 @@ func (c *cctx) evalCall(e *ast.CallExpr) cval {
 		n := *c
 		n.st = c.old
 		return n.eval(arg(0))
+	case "now":
+		n := *c
+		n.now = true
+		return n.eval(arg(0))
+	case "head":
+		if c.head == nil {
+			c.fail("head() outside a loop clause")
+			return c.boolVal(True)
+		}
+		n := *c
+		n.st = c.head
+		return n.eval(arg(0))
 	case "len":
 		a := c.eval(arg(0))
 		switch v := a.v.(type) {
@@ -890,7 +904,16 @@ func (x *Exec) specDecl(sf *SpecFunc) *FuncDecl {
 		}
 		cx := &cctx{x: x, st: newState(), old: newState(), env: env, bound: bound,
 			clause: &Clause{File: sf.File, Line: sf.Line}, callee: &Contract{Pkg: ""}}
+		nerr := len(x.errs)
 		r := cx.eval(sf.Body)
+		if len(x.errs) > nerr {
+			// the body is not expressible in this unit's theory: the symbol stays
+			// uninterpreted here (sound: fewer facts), and is the same symbol in
+			// every contract that mentions it
+			x.errs = x.errs[:nerr]
+			x.abstr["spec "+sf.Name+" is uninterpreted in this unit's theory"] = true
+			return d
+		}
 		var body *Term
 		if d.Ret.Kind == SBool {
 			if sc, ok := r.v.(Sc); ok && sc.T.S.Kind == SBool {
